@@ -8,9 +8,21 @@ tree    := "-" | entry (";" entry)*
 entry   := path ":" content          regular file
          | path "/"                  directory (needed only for empty ones: parents are implied)
 content := "-" | hex | "~" len "." seed        (pattern: byte i = (seed + 7·i + 13·(i / 256)) mod 256)
+         | "^" len "." seed "." bits      (noise: 32-bit LCG `s ← 1664525·s + 1013904223` started at
+                                           `(seed + 1)·2654435761`; byte i = top `bits` (1..8) bits of the
+                                           state after i + 1 steps — content deflate cannot shrink below
+                                           `bits/8` of its length)
 ```
-Canonical output: entries sorted by the bytes of the `/`-joined path; a content longer than 32
-bytes is printed as `h<len>.<fnv1a-64 of the bytes, 16 hex digits>`.
+path    := (plain | "/" | "%" h h)+     plain = ASCII letter, digit, `.`, `_`, `-`; `%hh` (two **lower-case**
+                                        hex digits) = the byte hh, for every other byte 01..7f except `/`
+                                        (space = `%20`, `%` = `%25`, `:` = `%3a`, …).  A byte has exactly one
+                                        spelling: `%41` (a plain byte), `%2F`, `%00`, `%80` and a bare ` `/`+`/… are
+                                        malformed, so the text of a path is unique (`pathText?` is injective).
+```
+Canonical output: entries sorted by the bytes of the `/`-joined path (the bytes, not their escaped
+text); paths are printed with the same escapes (`showPath`: every byte that is not plain and not the
+`/` between components is `%hh`, also bytes ≥ 80 that only a faulty implementation can produce); a
+content longer than 32 bytes is printed as `h<len>.<fnv1a-64 of the bytes, 16 hex digits>`.
 -/
 namespace Physis.FsText
 open Physis Physis.Fs
@@ -18,8 +30,26 @@ open Physis Physis.Fs
 def pattern (len seed : Nat) : Bytes :=
   (List.range len).map fun i => UInt8.ofNat (seed + 7 * i + 13 * (i / 256))
 
+/-- pseudo-random content, see the grammar above (tail recursive: contents reach 1 MiB) -/
+def noise (len seed bits : Nat) : Bytes :=
+  let sh : UInt8 := UInt8.ofNat (8 - bits)
+  let rec go : Nat → UInt32 → Array UInt8 → Array UInt8
+    | 0, _, acc => acc
+    | n + 1, s, acc =>
+      let s' := s * 1664525 + 1013904223
+      go n s' (acc.push ((s' >>> 24).toUInt8 >>> sh))
+  (go len ((UInt32.ofNat seed + 1) * 2654435761) (Array.mkEmpty len)).toList
+
 def parseContent (s : String) : Option Bytes :=
-  if s.startsWith "~" then
+  if s.startsWith "^" then
+    match (s.drop 1).toString.splitOn "." with
+    | [a, b, c] => do
+      let len ← a.toNat?
+      let seed ← b.toNat?
+      let bits ← c.toNat?
+      if 1 ≤ bits ∧ bits ≤ 8 then pure (noise len seed bits) else none
+    | _ => none
+  else if s.startsWith "~" then
     match (s.drop 1).toString.splitOn "." with
     | [a, b] => do
       let len ← a.toNat?
@@ -28,11 +58,47 @@ def parseContent (s : String) : Option Bytes :=
     | _ => none
   else Bytes.ofHexFast s
 
-def pathOfString (s : String) : Path := splitSlash (Bytes.ofString s)
+/-- bytes that travel as themselves in a path of the line protocol -/
+def plainByte (b : UInt8) : Bool :=
+  (48 ≤ b && b ≤ 57) || (65 ≤ b && b ≤ 90) || (97 ≤ b && b ≤ 122) || b == 46 || b == 95 || b == 45
 
-def okPathString (s : String) : Bool :=
-  !s.isEmpty && s.toList.all (fun c => c.isAlphanum || c = '.' || c = '_' || c = '-' || c = '/') &&
-  (s.splitOn "/").all (fun c => !c.isEmpty)
+def lhexVal (c : Char) : Option Nat :=
+  if '0' ≤ c ∧ c ≤ '9' then some (c.toNat - 48)
+  else if 'a' ≤ c ∧ c ≤ 'f' then some (c.toNat - 87)
+  else none
+
+/-- decode the text of a path (grammar above); `none` = malformed -/
+def unescapeChars : List Char → Option Bytes
+  | [] => some []
+  | c :: rest =>
+    if c = '%' then
+      match rest with
+      | a :: b :: rest' =>
+        match lhexVal a, lhexVal b with
+        | some x, some y =>
+          let v := x * 16 + y
+          if v = 0 ∨ 128 ≤ v ∨ v = 0x2f ∨ plainByte (UInt8.ofNat v) then none
+          else (unescapeChars rest').map (UInt8.ofNat v :: ·)
+        | _, _ => none
+      | _ => none
+    else if c.toNat < 128 ∧ (plainByte (UInt8.ofNat c.toNat) ∨ c = '/') then
+      (unescapeChars rest).map (UInt8.ofNat c.toNat :: ·)
+    else none
+
+/-- the bytes of a `/`-separated path written in the line protocol -/
+def pathText? (s : String) : Option Bytes := unescapeChars s.toList
+
+example : unescapeChars ['%', '2', '0', 'a', '/', '%', '2', '5', '.', 'b', '%', '7', 'f'] =
+    some [0x20, 0x61, 0x2f, 0x25, 0x2e, 0x62, 0x7f] := by decide
+example : unescapeChars ['%', '4', '1'] = none ∧ unescapeChars ['%', '2', 'F'] = none ∧
+    unescapeChars ['%', '2', 'f'] = none ∧ unescapeChars ['%', '0', '0'] = none ∧
+    unescapeChars ['%', '8', '0'] = none ∧ unescapeChars ['a', ' '] = none ∧ unescapeChars ['%', '2'] = none := by decide
+
+/-- a tree path of the line protocol: well-formed text, no empty component -/
+def treePath? (s : String) : Option Path :=
+  match pathText? s with
+  | some bs => if !bs.isEmpty && (splitSlash bs).all (fun c => !c.isEmpty) then some (splitSlash bs) else none
+  | none => none
 
 /-- all proper non-empty prefixes of a path (its parent directories), shortest first -/
 def parents (p : Path) : List Path :=
@@ -52,8 +118,9 @@ def parseTree (s : String) : Option Tree :=
     | e :: rest =>
       if e.endsWith "/" then
         let ps := (e.dropEnd 1).toString
-        if !okPathString ps then none else
-        let p := pathOfString ps
+        match treePath? ps with
+        | none => none
+        | some p =>
         let t := withParents t p
         match get t p with
         | some (.file _) => none
@@ -62,15 +129,13 @@ def parseTree (s : String) : Option Tree :=
       else
         match e.splitOn ":" with
         | [ps, cs] =>
-          if !okPathString ps then none else
-          match parseContent cs with
-          | none => none
-          | some d =>
-            let p := pathOfString ps
+          match treePath? ps, parseContent cs with
+          | some p, some d =>
             let t := withParents t p
             match get t p with
             | some _ => none
             | none => go rest (t ++ [(p, Node.file d)])
+          | _, _ => none
         | _ => none
   match go (s.splitOn ";") [] with
   | none => none
@@ -92,7 +157,12 @@ def hex16 (v : UInt64) : String :=
 def showContent (d : Bytes) : String :=
   if d.length ≤ 32 then Bytes.toHex d else s!"h{d.length}.{hex16 (fnv1a d)}"
 
-def showPath (p : Path) : String := String.ofList ((joinSlash p).map fun b => Char.ofNat b.toNat)
+/-- a path in the line protocol; the `/` are the separators between components (a `/` byte *inside* a
+component — no file system has one — would be printed `%2f`) -/
+def showPath (p : Path) : String :=
+  "/".intercalate (p.map fun c => String.ofList (c.flatMap fun b =>
+    if plainByte b then [Char.ofNat b.toNat]
+    else ['%', Bytes.hexDigit (b.toNat / 16), Bytes.hexDigit (b.toNat % 16)]))
 
 /-- canonical text of a tree; `withDirs = false` prints regular files only -/
 def showTree (t : Tree) (withDirs : Bool) : String :=
